@@ -2824,7 +2824,7 @@ class TrackFragmentRunBox(FullBox):
         w = FieldWriter(self, dest)
         w.write('I', 'sample_count')
         if self.flags & self.data_offset_present:
-            w.write('I', 'data_offset')
+            w.write('i', 'data_offset')
         if self.flags & self.first_sample_flags_present:
             w.write('I', 'first_sample_flags')
 
@@ -2852,8 +2852,9 @@ class TrackFragmentRunBox(FullBox):
                 'rewriting trun data_offset from %d to %d',
                 self.data_offset,
                 mdat_sample_start - moof.traf.tfhd.base_data_offset)
+            # data_offset is a signed field: the media data can precede an
+            # explicit base_data_offset
             self.data_offset = mdat_sample_start - moof.traf.tfhd.base_data_offset
-            assert self.data_offset >= 0
             cur = dest.tell()
             if (self.flags & self.data_offset_present) == 0:
                 self.flags |= self.data_offset_present
